@@ -57,7 +57,7 @@ var harness = &simcore.Harness{
 var genesis = time.Date(2000, 1, 1, 0, 0, 0, 0, time.UTC)
 
 func offT(ns int64) time.Time { return genesis.Add(time.Duration(ns)) }
-func tOff(t time.Time) int64   { return int64(t.Sub(genesis)) }
+func tOff(t time.Time) int64  { return int64(t.Sub(genesis)) }
 
 // ---------------------------------------------------------------- block info (reference side)
 
@@ -986,18 +986,18 @@ type call struct {
 	ctx    context.Context
 	cancel context.CancelFunc
 
-	done      bool
-	retLB     *types.LightBlock
-	retErr    error
-	panicked  string
-	replies   []reply
-	evid      []evRec
+	done       bool
+	retLB      *types.LightBlock
+	retErr     error
+	panicked   string
+	replies    []reply
+	evid       []evRec
 	primBefore int
-	cancelled bool
-	leadFork  int
-	stuck     int
-	returned  bool // the call has returned; witness requests still parked are answered late
-	drain     int
+	cancelled  bool
+	leadFork   int
+	stuck      int
+	returned   bool // the call has returned; witness requests still parked are answered late
+	drain      int
 }
 
 type sim struct {
